@@ -151,16 +151,22 @@ def run(rep):
             t3 = Trajectory(species=traj.species, coords=np.array(traj.positions), lattice=traj.get_lattice(),
                             time_step=traj.time_step * s, metadata=dict(traj.metadata))
             m1, m2, m3 = TrajectoryMetrics(traj), TrajectoryMetrics(t2), TrajectoryMetrics(t3)
-            def ratio(f, mm):
+            amp_scale = float(np.mean(np.abs(np.asarray(m1.amplitudes())))) if len(np.asarray(m1.amplitudes())) else 0.0
+
+            def ratio(f, mm, floor=0.0):
                 a0, a1 = float(f(m1)), float(f(mm))
-                return a1 / a0 if a0 != 0 and math.isfinite(a0) else None
+                # a quantity that is zero up to rounding noise (e.g. the spread of identical amplitudes) has no meaningful ratio
+                if not math.isfinite(a0) or abs(a0) <= max(floor, 1e-300):
+                    return None
+                return a1 / a0
             table = [('tracer-diffusivity', lambda x: x.tracer_diffusivity(dimensions=3), k ** 2, 1 / s),
                      ('com-diffusivity', lambda x: x.tracer_diffusivity_center_of_mass(dimensions=3), k ** 2, 1 / s),
                      ('vibration-amplitude', lambda x: x.vibration_amplitude(), k, 1.0),
                      ('particle-density', lambda x: x.particle_density(), k ** -3, 1.0),
                      ('attempt-frequency', lambda x: x.attempt_frequency()[0], 1.0, 1 / s)]
             for name, f, ek, es in table:
-                rk, rs = ratio(f, m2), ratio(f, m3)
+                floor = 1e-9 * amp_scale if name == 'vibration-amplitude' else 0.0
+                rk, rs = ratio(f, m2, floor), ratio(f, m3, floor)
                 if rk is not None and not md.close(rk, ek, rel=1e-8, abs_=1e-12):
                     bad.append((f'scaling-cell-{name}', rk, ek, k))
                 if rs is not None and not md.close(rs, es, rel=1e-8, abs_=1e-12):
